@@ -243,6 +243,7 @@ def run_case(env, c):
     cur = c["first"]
     bufs[cur] = Buf(disk.get(cur, b""))
     info = {"clean_point": False, "dirty_probe": False}
+    rawunknown = set()      # files whose bytes are not known exactly since a failed write (until the next successful one)
     cl = []
 
     def dirty(b):
@@ -304,7 +305,12 @@ def run_case(env, c):
                     b.hist_known = False
             elif k == "reload":
                 if cur in disk and disk[cur] is UNKNOWN:
-                    disk[cur] = snap
+                    # after a failed write the file holds some prefix - or was never created (the open itself failed): the read
+                    # message tells which
+                    if "[r]" in msg:
+                        disk[cur] = snap        # (as text; the bytes may differ - a missing final newline - hence rawunknown)
+                    else:
+                        del disk[cur]
                 if cur in disk:
                     b.ids = b.ids[:b.cur + 1] + [b.nid]
                     b.nid += 1
@@ -328,6 +334,7 @@ def run_case(env, c):
             tgt = cmd.split()[-1] if k == "wother" else cur
             if tgt == fpath:
                 disk[tgt] = UNKNOWN          # cut short somewhere: only a later successful write or a reload tells what it holds
+                rawunknown.add(tgt)
         if k == "reloadmod" and cur in disk and disk[cur] is UNKNOWN:
             return Outcome(True, False, ["fault_then_reload_with_command_not_judged"])
         if k in ("wmod", "modwmod", "reloadmod") and newcur == cur:
@@ -356,6 +363,10 @@ def run_case(env, c):
             else:
                 b.hist_known = False
             b.text = snap
+        if ok_write and k in ("w", "wmod", "modwmod", "wpart"):
+            rawunknown.discard(cur)
+        if ok_write and k == "wother":
+            rawunknown.discard(cmd.split()[-1])
         if k == "w" and ok_write:
             disk[cur] = b.text
             b.saved = b.text
@@ -431,7 +442,7 @@ def run_case(env, c):
             return fail(":%s exited although buffer(s) %s differ from their files" % (c["quit"], others), n)
     # (I2) what was reported as successfully written is what the files hold (the file of the buffer current at :x / :wq excepted)
     for p_, want in sorted(disk.items()):
-        if want is UNKNOWN or (c["quit"] != "q" and p_ == cur):
+        if want is UNKNOWN or p_ in rawunknown or (c["quit"] != "q" and p_ == cur):
             continue
         have = runner.read_file(d, p_)
         if (have or b"") != want:
